@@ -131,7 +131,10 @@ func c10Font(c *explore.Ctx) (*sfnt.Font, string) {
 		desc += ", cmap format 12"
 	}
 	f.Gsub, f.Gpos, f.Gdef = nil, nil, nil
-	switch c.Choose(4, "gsub") {
+	lig1 := func(first, second, out glyph.ID) *gtab.LookupTable {
+		return gen.MakeLookup(4, gen.Flags[0], []gtab.Subtable{&gtab.Gsub4_1{Cov: coverage.Table{first: 0}, Repl: [][]gtab.Ligature{{{In: []glyph.ID{second}, Out: out}}}}})
+	}
+	switch c.Choose(6, "gsub") {
 	case 1:
 		f.Gsub = gsubInfo("ss01", gen.MakeLookup(1, gen.Flags[0], []gtab.Subtable{&gtab.Gsub1_1{Cov: coverage.Set{1: true, 3: true}, Delta: 1}}))
 		desc += ", GSUB 1.1 {1,3}+1"
@@ -143,6 +146,13 @@ func c10Font(c *explore.Ctx) (*sfnt.Font, string) {
 			gen.MakeLookup(1, gen.Flags[0], []gtab.Subtable{&gtab.Gsub1_1{Cov: coverage.Set{2: true}, Delta: 2}}),
 			gen.MakeLookup(4, gen.Flags[0], []gtab.Subtable{&gtab.Gsub4_1{Cov: coverage.Table{1: 0, 3: 1}, Repl: [][]gtab.Ligature{{{In: []glyph.ID{2}, Out: 4}}, {{In: []glyph.ID{4}, Out: 5}, {In: []glyph.ID{1}, Out: 2}}}}}))
 		desc += ", GSUB 1.1 B->i; 4.1 A+B->i f+i->fi f+A->B"
+	case 4:
+		// ligatures of ligatures, three levels, the deepest rule in the first lookup
+		f.Gsub = gsubInfo("liga", lig1(5, 1, 2), lig1(4, 1, 5), lig1(3, 1, 4))
+		desc += ", GSUB 4.1 chain in reverse lookup order: fi+A->B; i+A->fi; f+A->i"
+	case 5:
+		f.Gsub = gsubInfo("liga", lig1(3, 1, 4), lig1(4, 1, 5), lig1(5, 1, 2))
+		desc += ", GSUB 4.1 chain: f+A->i; i+A->fi; fi+A->B"
 	}
 	if c.Bool("gpos") {
 		f.Gpos = gsubInfo("kern", gen.MakeLookup(2, gen.Flags[0], []gtab.Subtable{gtab.Gpos2_1{
@@ -193,7 +203,7 @@ func c10Subset(r *run.Run) {
 		maxLen = 5
 	}
 	r.Explore(explore.Config{Name: "C10.subset", Deadline: r.PartDeadline(0.9)},
-		fmt.Sprintf("6-glyph fonts (glyf with 6 component graphs incl. nested, forward and repeated references; simple CFF with 3 encodings incl. a multiply encoded glyph; CID-keyed with 2..3 font dicts) x 3 cmaps x GSUB {none, 1.1, 4.1, both} x GPOS {none, 2.1} x ALL duplicate-free glyph lists starting with glyph 0 of length 1..%d in every order", maxLen),
+		fmt.Sprintf("6-glyph fonts (glyf with 6 component graphs incl. nested, forward and repeated references; simple CFF with 3 encodings incl. a multiply encoded glyph; CID-keyed with 2..3 font dicts) x 3 cmaps x GSUB {none, 1.1, 4.1, both, 3-level ligature chains in both lookup orders} x GPOS {none, 2.1} x ALL duplicate-free glyph lists starting with glyph 0 of length 1..%d in every order", maxLen),
 		func(c *explore.Ctx) {
 			f, desc := c10Font(c)
 			// glyph list
@@ -297,37 +307,92 @@ func c10Subset(r *run.Run) {
 			if f2, d2 := c10FontAgain(c, desc); f2 != nil {
 				_ = d2
 			}
-			// closure: appended glyphs are exactly those needed
-			need := map[glyph.ID]bool{}
-			for _, g := range origCopy {
-				need[g] = true
-			}
-			if ol, ok := f.Outlines.(*glyf.Outlines); ok {
-				for changed := true; changed; {
-					changed = false
-					for g := range need {
-						for _, k := range ol.Glyphs[g].Components() {
-							if !need[k] {
-								need[k] = true
-								changed = true
+			// closure: appended glyphs are exactly those needed.  lower bound: the outputs of substitution
+			// rules all of whose inputs are retained (least fixed point from the list), then the components
+			// of all those; upper bound: the joint fixed point, in which a glyph present only as a
+			// component may also count as a rule input (the property does not say whether it does).
+			composites := func(set map[glyph.ID]bool) bool {
+				changed := false
+				if ol, ok := f.Outlines.(*glyf.Outlines); ok {
+					for again := true; again; {
+						again = false
+						for g := range set {
+							for _, k := range ol.Glyphs[g].Components() {
+								if !set[k] {
+									set[k] = true
+									again, changed = true, true
+								}
 							}
 						}
 					}
 				}
+				return changed
+			}
+			substitutions := func(set map[glyph.ID]bool) bool {
+				if f.Gsub == nil {
+					return false
+				}
+				any := false
+				for changed := true; changed; {
+					changed = false
+					add := func(g glyph.ID) {
+						if !set[g] {
+							set[g] = true
+							changed, any = true, true
+						}
+					}
+					for _, l := range f.Gsub.LookupList {
+						for _, st := range l.Subtables {
+							switch st := st.(type) {
+							case *gtab.Gsub1_1:
+								for g := range st.Cov {
+									if set[g] {
+										add(g + st.Delta)
+									}
+								}
+							case *gtab.Gsub4_1:
+								for first, idx := range st.Cov {
+								ligs:
+									for _, lig := range st.Repl[idx] {
+										if !set[first] {
+											continue
+										}
+										for _, in := range lig.In {
+											if !set[in] {
+												continue ligs
+											}
+										}
+										add(lig.Out)
+									}
+								}
+							}
+						}
+					}
+				}
+				return any
+			}
+			usable := map[glyph.ID]bool{} // listed glyphs and substitution outputs
+			for _, g := range origCopy {
+				usable[g] = true
+			}
+			substitutions(usable)
+			need := map[glyph.ID]bool{}
+			upper := map[glyph.ID]bool{}
+			for g := range usable {
+				need[g], upper[g] = true, true
+			}
+			composites(need)
+			for composites(upper) || substitutions(upper) {
 			}
 			for i := len(origCopy); i < ng; i++ {
 				og := origOf[i]
-				if need[og] && !inList(origCopy, og) {
-					continue // needed by a composite
-				}
-				// otherwise it must be a substitution output reachable from retained glyphs
-				if f.Gsub == nil {
-					c.Fail("C10.closure", sig, "glyph %d (original %d) was appended but nothing needs it; %s list %v", i, og, desc, origCopy)
+				if !upper[og] {
+					c.Fail("C10.closure", sig+" extra glyph", "glyph %d (original %d) was appended but no retained composite or substitution rule needs it; %s list %v", i, og, desc, origCopy)
 				}
 			}
 			for g := range need {
 				if _, ok := newOf[g]; !ok {
-					c.Fail("C10.closure", sig+" missing component", "original glyph %d is a component of a retained composite but is not in the subset; %s list %v", g, desc, origCopy)
+					c.Fail("C10.closure", sig+" missing component", "original glyph %d is a component of a retained composite, or the output of a substitution rule whose inputs are all retained, but is not in the subset; %s list %v", g, desc, origCopy)
 				}
 			}
 			// character map
@@ -373,8 +438,15 @@ func c10Subset(r *run.Run) {
 				}
 			}
 			// rules keep their meaning: all sequences of <= 3 retained glyphs
-			if (f.Gsub != nil || f.Gpos != nil) && len(origCopy) > 1 {
-				gen.Sequences(origCopy[1:], 3, func(seq []glyph.ID) bool {
+			if (f.Gsub != nil || f.Gpos != nil) && ng > 1 {
+				// all usable retained glyphs: the listed ones and the substitution outputs appended by the closure
+				var alphabet []glyph.ID
+				for _, og := range origOf[1:] {
+					if usable[og] {
+						alphabet = append(alphabet, og)
+					}
+				}
+				try := func(seq []glyph.ID) bool {
 					if len(seq) == 0 {
 						return true
 					}
@@ -398,7 +470,12 @@ func c10Subset(r *run.Run) {
 						return false
 					}
 					return true
-				})
+				}
+				// all pairs over the usable glyphs, all triples over the listed ones
+				gen.Sequences(alphabet, 2, try)
+				if !c.Failed() {
+					gen.Sequences(origCopy[1:], 3, func(seq []glyph.ID) bool { return len(seq) < 3 || try(seq) })
+				}
 			}
 			// the subset can be written and read back
 			file, err := writeFont(sub)
@@ -490,7 +567,7 @@ var c10FontChoices []int
 
 func init() {
 	Register("C10", func(r *run.Run) {
-		r.Rule = "bounded exhaustive enumeration of 6-glyph fonts x all duplicate-free glyph lists; oracle through the index map (unique advance widths identify original glyphs); semantic preservation of rules via the reference shaper on all sequences of <= 3 retained glyphs"
+		r.Rule = "bounded exhaustive enumeration of 6-glyph fonts x all duplicate-free glyph lists; oracle through the index map (unique advance widths identify original glyphs); closure = least fixed point of composite components and substitution outputs, computed independently; semantic preservation of rules via the reference shaper on all sequences of <= 3 retained glyphs (listed and appended)"
 		r.Assume = []string{"only layout data the subsetter declares supported: GSUB 1.1 / 4.1, GPOS 2.1, no GDEF", "characters mapping to glyphs that were appended by the closure may or may not be mapped"}
 		c10Subset(r)
 		c10Repeat(r)
